@@ -1,0 +1,20 @@
+//go:build verif
+
+package bexpr
+
+import "github.com/hashicorp/go-bexpr/grammar"
+
+// VerifAST returns the syntax tree an Evaluator holds. It exists only under the
+// verif build tag; the verification harness in /verif uses it read-only to
+// snapshot the shared tree before and after calls.
+func (eval *Evaluator) VerifAST() grammar.Expression {
+	return eval.ast
+}
+
+// VerifEvaluator returns the Evaluator a Filter wraps (nil for a nil Filter).
+func (f *Filter) VerifEvaluator() *Evaluator {
+	if f == nil {
+		return nil
+	}
+	return f.evaluator
+}
